@@ -220,9 +220,10 @@ class IMAPConnection:
                     raise AuthenticationError('Authentication canceled.') \
                         from None
                 try:
-                    resp_dec = b64decode(resp_bytes)
+                    resp_dec = b64decode(resp_bytes.rstrip(b'\r\n'),
+                                         validate=True)
                 except binascii.Error as exc:
-                    raise AuthenticationError() from exc
+                    raise AuthenticationError('Invalid base64.') from exc
                 else:
                     responses.append(ChallengeResponse(chal.data, resp_dec))
             except UnicodeError as exc:
